@@ -37,3 +37,13 @@ Theorem C05_nonvacuous :
   = [([116;121;112;101], [105;110;116]); ([114;101;113;117;105;114;101;100], [116;114;117;101;40;41])]%N.
 Proof. vm_compute. reflexivity. Qed.
 Print Assumptions C05_nonvacuous.
+
+(* ---- setting an attribute on the bind: the value set last under a name is the one it carries, and every OTHER name keeps its value -- in
+        particular a custom attribute with a prefix (bind::ex:type) leaves the attribute with the same local name (type) alone (defect F61) ---- *)
+Require Import PX.Proofs.AttrUnique.
+Theorem C05_attribute_set_last_wins : forall calls k v, dget k (set_attributes (calls ++ [(k, v)])) = Some v.
+Proof. exact last_value_wins. Qed.
+Print Assumptions C05_attribute_set_last_wins.
+Theorem C05_other_attributes_untouched : forall calls k v k', k' <> k -> dget k' (set_attributes (calls ++ [(k, v)])) = dget k' (set_attributes calls).
+Proof. exact other_names_untouched. Qed.
+Print Assumptions C05_other_attributes_untouched.
